@@ -82,6 +82,18 @@ structure NonInterfering (sem : Sem Loc Cell Val Path Bytes Op Obs) (rel : Cell 
   reads_sound : ∀ op fs l s s', Good s → Good s' → (∀ c, rel c → s c = s' c) →
       (sem op fs l s).obs = (sem op fs l s').obs ∧ (sem op fs l s).loc = (sem op fs l s').loc
 
+/-- **Frames.**  What the effect table says about an operation: the process-wide cells its result may depend on
+(`reads op`) and the cells it may change (`writes op`).  A cell that an operation re-initialises before it looks at
+it ("reset before use") is written, not read: the result does not depend on what the cell held. -/
+structure Framed (sem : Sem Loc Cell Val Path Bytes Op Obs) (reads writes : Op → Cell → Prop) : Prop where
+  /-- no operation modifies a file -/
+  files_kept : ∀ op fs l s, (sem op fs l s).files = fs
+  /-- cells outside the write set keep their value -/
+  writes_only : ∀ op fs l s c, ¬ writes op c → (sem op fs l s).shared c = s c
+  /-- result and next instance state depend on process-wide state through the read set only -/
+  reads_only : ∀ op fs l s s', (∀ c, reads op c → s c = s' c) →
+      (sem op fs l s).obs = (sem op fs l s').obs ∧ (sem op fs l s).loc = (sem op fs l s').loc
+
 end generic
 
 /-! ## 2a. Memo tables (`functools.lru_cache`, `_CONVERSION_HOPS`) -/
@@ -97,6 +109,11 @@ def memoCall (f : α → β) (cache : List (α × β)) (x : α) : β × List (α
 
 /-- every stored value is the function's value -/
 def CacheSound (f : α → β) (cache : List (α × β)) : Prop := ∀ p ∈ cache, p.2 = f p.1
+
+/-- a world whose only process-wide cell is the memo table of `f`; the one operation "call with `x`" returns what
+the memoised function returns and leaves the instance alone -/
+def memoSem {Loc Path Bytes : Type} (f : α → β) : Sem Loc Unit (List (α × β)) Path Bytes α β :=
+  fun x fs l s => ⟨(memoCall f (s ()) x).1, l, fun _ => (memoCall f (s ()) x).2, fs⟩
 
 end memo
 
@@ -243,11 +260,79 @@ def coverTable : List (String × Cover) := [
   ("midgard.files.dependencies:_CURRENT_DEPENDENCIES", .sink),
   ("midgard.files.dependencies:_DEPENDENCY_CACHE", .sink)]
 
+/-- the cells the three `sink` rows stand for are *trusted*, not proved: written on parse paths, claimed never to
+flow into a result (the check lists them as trusted cells in its evidence) -/
+def trustedCells : List String := (coverTable.filter fun p => p.2 = .sink).map (·.1)
+
+/-- Hand-written: the memoised functions (`functools.lru_cache` / `cache`) that were looked at: a function of its
+(hashable) arguments only, whose values are immutable or handed out read-only (C08 checks that for `data._time`).
+A memo that is not listed here - any new `lru_cache` in midgard/parsers, gnss, files, dev or a module a parser
+imports - is an uncovered effect and breaks `Props.C16.effects_covered`; so does a listed one whose body starts to
+look at the file system, the clock or the environment (`escapeSites` of a memo row). -/
+def reviewedMemo : List String := [
+  "midgard.data._time:_dt2jd@lru_cache",
+  "midgard.data._time:_dt2str@lru_cache",
+  "midgard.data._time:_dy2jd@lru_cache",
+  "midgard.data._time:_jd2dt@lru_cache",
+  "midgard.data._time:_jd2dy@lru_cache",
+  "midgard.data._time:_jd2yds@lru_cache",
+  "midgard.data._time:_jd_delta@lru_cache",
+  "midgard.data._time:_str2dt@lru_cache",
+  "midgard.data._time:_to_scale@lru_cache",
+  "midgard.data._time:_yds2jd@lru_cache",
+  "midgard.data._time:_year2days@lru_cache",
+  "midgard.data._time:day@lru_cache",
+  "midgard.data._time:doy@lru_cache",
+  "midgard.data._time:hour@lru_cache",
+  "midgard.data._time:jd_frac@lru_cache",
+  "midgard.data._time:jd_int@lru_cache",
+  "midgard.data._time:max@lru_cache",
+  "midgard.data._time:mean@lru_cache",
+  "midgard.data._time:min@lru_cache",
+  "midgard.data._time:minute@lru_cache",
+  "midgard.data._time:mjd_frac@lru_cache",
+  "midgard.data._time:mjd_int@lru_cache",
+  "midgard.data._time:month@lru_cache",
+  "midgard.data._time:plot_fields@lru_cache",
+  "midgard.data._time:sec_of_day@lru_cache",
+  "midgard.data._time:second@lru_cache",
+  "midgard.data._time:to_format@lru_cache",
+  "midgard.data._time:year@lru_cache",
+  "midgard.math.rotation:enu2trs@lru_cache",
+  "midgard.math.rotation:trs2enu@lru_cache",
+  "midgard.math.transformation:_llh2trs@lru_cache",
+  "midgard.math.transformation:_trs2llh@lru_cache"]
+
+/-- Hand-written: shared objects that are knowingly handed out (cell id, why that is harmless).  Empty: on the
+current tree no mutable object of module, class or closure level is returned, bound to another name, stored in a
+container or passed to a call that is not a pure consumer. -/
+def escapeReviewed : List (String × String) := []
+
 open Midgard.Generated.ParserEffects in
-/-- the cover of a cell: every `lru_cache` is a memo table by construction; the rest by name -/
+/-- the cover of a cell: a reviewed `lru_cache` whose body looks at nothing but its arguments is a memo table;
+the rest by name -/
 def coverOf (id : String) : Option Cover :=
   match cells.find? (fun r => r.id = id) with
-  | some r => if r.kind = .lrucache then some .memo else coverTable.lookup id
+  | some r =>
+    if r.kind = .lrucache then (if reviewedMemo.contains id && r.escapeSites == 0 then some .memo else none)
+    else coverTable.lookup id
   | none => coverTable.lookup id
+
+open Midgard.Generated.ParserEffects in
+/-- process-wide cells that are written at run time, read, and of none of the three mechanisms: a parse could read
+there what an earlier parse left behind -/
+def readBeforeWriteCells : List CellRow :=
+  cells.filter fun r => r.level != .instance && decide (r.writeSites > 0) && decide (r.readSites > 0) && (coverOf r.id).isNone
+
+open Midgard.Generated.ParserEffects in
+/-- shared objects that leave the module: handed out although nobody reviewed it -/
+def unreviewedEscapes : List CellRow :=
+  cells.filter fun r => r.kind != .lrucache && decide (r.escapeSites > 0) && !(escapeReviewed.any fun p => p.1 == r.id)
+
+open Midgard.Generated.ParserEffects in
+/-- per-object cells that are not fresh per object: the name falls back to a class-level object, the bound value is
+a shared object, or nothing creates the attribute -/
+def staleInstanceCells : List InstRow :=
+  instanceCells.filter fun r => r.shadowsClassCell || r.aliasOfShared || (!r.ctorInit && r.createdIn == "")
 
 end Midgard.Purity
